@@ -209,7 +209,43 @@ impl Graph {
 
 const DIRS: [&str; 3] = ["/w", "/w/sub", "/w/inc"];
 
+/// A ladder of stacked diamonds: `l<i>` includes `a<i>` and `b<i>` (now and then a third,
+/// `c<i>`), which all include `l<i+1>`. The number of PATHS from the root to rung i doubles
+/// with every rung while the number of files grows by three: a walk that follows every path
+/// instead of every file does not come back.
+fn gen_ladder(rng: &mut Rng, allow_nested: bool) -> Graph {
+    let rungs = rng.range(16, 36);
+    let mut files: Vec<GFile> = Vec::new();
+    let nested = allow_nested && rng.chance(1, 4);
+    files.push(GFile { path: "/w/f0.td".into(), includes: vec![] });
+    let rail = |i: usize| if i == 0 { "f0.td".to_string() } else { format!("l{i}.td") };
+    for i in 0..rungs {
+        let sides: Vec<String> = ["a", "b", "c"][..if rng.chance(1, 5) { 3 } else { 2 }].iter().map(|s| format!("{s}{i}.td")).collect();
+        let li = files.iter().position(|f| f.path == format!("/w/{}", rail(i))).unwrap();
+        for sname in &sides {
+            files[li].includes.push(GInc { name: sname.clone(), nested: nested && rng.chance(1, 3) });
+        }
+        let last = i + 1 == rungs;
+        for sname in &sides {
+            let includes = if last { vec![] } else { vec![GInc { name: rail(i + 1), nested: false }] };
+            files.push(GFile { path: format!("/w/{sname}"), includes });
+        }
+        if !last {
+            files.push(GFile { path: format!("/w/{}", rail(i + 1)), includes: vec![] });
+        }
+    }
+    if rng.chance(1, 3) {
+        // the bottom closes a cycle back to the top
+        let n = files.len();
+        files[n - 1].includes.push(GInc { name: "f0.td".into(), nested: false });
+    }
+    Graph { files, unreadable: Vec::new(), include_dir: None, root: 0, hidden: Vec::new(), second_hidden: None }
+}
+
 pub fn gen_graph(rng: &mut Rng, allow_nested: bool) -> Graph {
+    if rng.chance(1, 40) {
+        return gen_ladder(rng, allow_nested);
+    }
     let n = match rng.below(10) {
         0 => 1,
         1..=3 => 2,
